@@ -157,6 +157,11 @@ def dyn_env(config):
     """environment / extra tags of a discovered configuration, from its name (bin/check: discover_configs)"""
     m = re.search(r"dyn-([\w.]+)", config)
     name = m.group(1) if m else ""
+    if name.startswith("env."):
+        try:
+            return dict(json.loads(os.environ.get("VERIF_DYNENV", "{}")).get("dyn-" + name, {})), []
+        except ValueError:
+            return {}, []
     if name.startswith("cpuoff."):
         gd = {"all": "cpu.all=off", "avx": "cpu.avx2=off,cpu.avx=off,cpu.avx512f=off,cpu.bmi2=off,cpu.adx=off,cpu.fma=off"}.get(name[7:], "cpu.all=off")
         return dict(VERIF_GODEBUG_EXTRA=gd), []
